@@ -423,7 +423,7 @@ HARNESSES = [("Model._simplify_once#eliminate_constant_assignments/counting", h_
 EXPECTED_COVER = {"count.const", "count.eliminable", "count.eliminable_real", "count.eliminable_chain", "count.alias"} | {"replace." + o for o in REPLACE_OPTIONS} | {"make.done", "affine.done"}
 BOUNDED = True
 LEVEL = "proof"
-TRUSTED = ["pyvc VC generator", "z3 5.1.0", "MX node algebra of contracts/mx_algebra.py", "ca.substitute(exprs, vars, values) removes the substituted symbols from exprs",
+TRUSTED = ["pyvc VC generator", "z3 5.1.0", "MX node algebra of contracts/mx_algebra.py", "ca.substitute(exprs, vars, values) removes the substituted symbols from exprs (counting harnesses); the chain harness gives ca.substitute / ca.is_equal their meaning on terms (contracts/mx_algebra.py substitute_term / same_term)",
            "AliasRelation (verified under C17) -- here its real code is executed concretely"]
 ASSUMPTIONS = [
     "equation lists are enumerated (2-3 equations; every matcher shape; alias chains through a state, through a derivative and a second state, through a parameter); in the harness with extract_assignment under contract 'regular' excludes a variable defined twice; the harness that runs the REAL extract_assignment closure includes double definitions (the variable must be eliminated once and the second equation kept); a repeated alias equation is excluded",
